@@ -5,8 +5,9 @@
    u8 bit operations are modelled with Z.land / Z.lor / Z.lxor / Z.shiftl / Z.shiftr and an explicit
    truncation to 8 bits (`u8`), exactly as the Rust expressions are written; the arithmetic reading
    (/ 2^k mod 2^b) is a THEOREM (Proofs/Rawdata.v), not a definition.
-   `index * bytes_per_pixel` and `index + 1` are unbounded here; on the 64-bit target they coincide with
-   usize arithmetic when index * (bits/8) <= usize_max (see idx_ok in Proofs/Rawdata.v). *)
+   `index.checked_mul(N)` is modelled as written (None above usize::MAX, 64-bit target). `index + 1`
+   (iterator) and `len * (8 / bpp)` (size_hint) are unbounded here; they coincide with usize arithmetic
+   when 8 * len <= usize::MAX (len_ok in Proofs/Rawdata.v), i.e. for every slice below 2 EiB. *)
 From EG Require Import Base.Prelude.
 
 (* the harness runs on a 64-bit target *)
@@ -104,10 +105,19 @@ Definition store_u8 (v : Z) (buf : list Z) (index : Z) : list Z * bool :=
 (* load_store.rs:70-175  RawU16 / RawU24 / RawU32 *)
 Definition nbytes (t : rawty) : Z := bits t / 8.
 
+(* usize::checked_mul *)
+Definition checked_mul_usize (a b : Z) : option Z := if a * b <=? usize_max then Some (a * b) else None.
+
+(* load_store.rs:72-75, 97-101 (U16), 108-111, 141-145 (U24), 152-155, 177-181 (U32):
+   index.checked_mul(N).and_then(|start| buffer.get(start..)).and_then(|buffer| buffer.get(0..N)) *)
 Definition get_pixel_bytes (t : rawty) (buf : list Z) (index : Z) : option (list Z) :=
-  match get_from buf (index * nbytes t) with
-  | Some rest => get_prefix rest (nbytes t)
+  match checked_mul_usize index (nbytes t) with
   | None => None
+  | Some start =>
+      match get_from buf start with
+      | Some rest => get_prefix rest (nbytes t)
+      | None => None
+      end
   end.
 
 Definition decode_bytes (t : rawty) (alt : order) (bytes : list Z) : Z :=
